@@ -1,14 +1,25 @@
 /-
 C12 — Tie: what the extractor read from core/collection/timingwheel.go *now* equals what the
 model was written against.  A failing obligation here means the code moved away from the model.
+
+  arithmetic            getOffset, getPositionAndCircle, onTick's position, the constructor's initial tickedPos
+  run-loop handlers     moveTask (whole function), setTask (clamp + rest), removeTask, setTimerPosition, one
+                        iteration of the scan loop and of the drain loop: effect lists, per branch, with values
+  public API            the argument guards as Bool functions (= the model's `badDelayKey`, `badCtor`), the
+                        select tables (channel, direction, sent fields, returned error), Stop, the run loop's
+                        dispatch table (channel ↦ handler; stopChannel ↦ ticker.Stop(); return), constructor
+  statement skeletons   order of list / map operations in scan, drain, remove, set, onTick
 -/
 import GoZero.Extracted.C12
 import GoZero.C12.Proofs
+import GoZero.C12.Api
 namespace GoZero.C12.Tie
 open GoZero.C12
 open GoZero.Extracted.C12
 
 theorem extraction_clean : extractionErrors = [] := by decide
+
+/-! ### arithmetic -/
 
 /-- Go's `getOffset` (truncating `%` on `int`) is the model's `off` on slot indices. -/
 theorem tie_getOffset (n p q : Nat) (hp : p < n) : getOffset q n p = (off n p q : Nat) := by
@@ -31,6 +42,32 @@ theorem tie_getPositionAndCircle (n p d iv : Nat) (hs : iv ≤ d) (hiv : 0 < iv)
   have e2 : ((s : Int) - 1) = ((s - 1 : Nat) : Int) := by omega
   rw [e2, Int.tdiv_eq_ediv_of_nonneg (by omega), Int.tmod_eq_emod_of_nonneg (by omega)]
   congr 1
+
+/-- the only numeric conversion in the file is `int(d / interval)` of a `time.Duration` quotient (int is
+64 bits wide on the supported platforms): no narrowing anywhere. -/
+theorem tie_conversions : conversions = ["int(d / tw.interval)"] := by decide
+
+/-- the constructor starts the wheel "at the previous virtual circle": `tickedPos = numSlots - 1`. -/
+theorem tie_initTickedPos (n : Nat) (hn : 0 < n) : initTickedPos n = ((TW.init n).tickedPos : Int) := by
+  unfold initTickedPos TW.init
+  simp only []
+  omega
+
+/-- `onTick` advances `tickedPos` by one modulo `numSlots` (the model's `tick`), then scans — and the
+slot it scans is the one at the advanced position. -/
+theorem tie_onTick (n p : Nat) :
+    onTickEff p n = [("tickedPos", (((tick { n := n, tickedPos := p, entries := [] }).1.tickedPos : Nat) : Int)),
+                     ("call:scanAndRunTasks(l)", 0)]
+    ∧ onTickStmts = ["tw.tickedPos = (tw.tickedPos + 1) % tw.numSlots", "l := tw.slots[tw.tickedPos]",
+                     "tw.scanAndRunTasks(l)"] := by
+  refine ⟨?_, by decide⟩
+  unfold onTickEff tick
+  simp only []
+  have h : ((p : Int) + 1) = ((p + 1 : Nat) : Int) := by omega
+  rw [h, Int.tmod_eq_emod_of_nonneg (by omega)]
+  norm_cast
+
+/-! ### the run loop's handlers -/
 
 /-- the case split of Go's `moveTask` (its assignments, per branch) is the model's `moveCase`. -/
 theorem tie_moveTask (n p old d iv : Nat) (hp : p < n) (hs : iv ≤ d) (hiv : 0 < iv) :
@@ -61,6 +98,228 @@ theorem tie_moveTask (n p old d iv : Nat) (hp : p < n) (hs : iv ≤ d) (hiv : 0 
       congr 3 <;> omega
     · have h2' : ¬ ((c : Int) > 0) := by omega
       simp only [h1, h1', h2, h2', decide_false, if_false, Bool.false_eq_true]
+
+theorem steps_zero_iff (d iv : Nat) (hiv : 0 < iv) : d / iv = 0 ↔ d < iv := by
+  constructor
+  · intro h
+    by_cases hlt : d < iv
+    · exact hlt
+    · have : 1 ≤ d / iv := (Nat.le_div_iff_mul_le hiv).mpr (by omega)
+      omega
+  · exact Nat.div_eq_of_lt
+
+/-- **every statement of `moveTask`**, as the model's `stepWith … (.move k s)` reads it (`s = d / interval`):
+unknown key → nothing; `s = 0` (delay below one interval) → the callback runs at once with the timer's key and
+value and nothing else changes; otherwise `moveCase`: lazy move (circle, diff) or flag the entry removed and
+insert a fresh entry — carrying the old value — into the slot `getPositionAndCircle` computed. -/
+theorem tie_moveTaskFull (n p old d iv : Nat) (hp : p < n) (hiv : 0 < iv) (ok : Bool) :
+    moveTaskEff ok d iv p n old =
+      ("call:timers.Get(task.key)", 0) ::
+        (if ok = false then []
+         else if d / iv = 0 then
+           [("call:threading.GoSafe{()", 0), ("call:execute(timer.item.key,timer.item.value)", 0), ("call:}()", 0)]
+         else match moveCase n p old (d / iv) with
+           | .keep c df => [("timer.item.circle", (c : Int)), ("timer.item.diff", (df : Int))]
+           | .reinsert s =>
+             [("timer.item.removed", 1),
+              ("call:new:newItem(&timingEntry{ baseEntry: task, value: timer.item.value, })", 0),
+              ("arg.pos", (s : Int)), ("call:tw.slots[pos].PushBack(newItem)", 0),
+              ("arg.pos", (s : Int)), ("call:setTimerPosition(pos,newItem)", 0)]) := by
+  have hn : 0 < n := by omega
+  cases ok with
+  | false => simp [moveTaskEff]
+  | true =>
+    by_cases hlt : d < iv
+    · have h0 : d / iv = 0 := Nat.div_eq_of_lt hlt
+      have hlt' : (d : Int) < (iv : Int) := by omega
+      simp [moveTaskEff, h0, hlt']
+    · have hs : iv ≤ d := by omega
+      have h0 : ¬ d / iv = 0 := fun h => hlt ((steps_zero_iff d iv hiv).mp h)
+      have hlt' : ¬ (d : Int) < (iv : Int) := by omega
+      unfold moveTaskEff moveCase
+      simp only [Bool.not_true, Bool.false_eq_true, if_false, hlt', decide_false, h0,
+        tie_getPositionAndCircle n p d iv hs hiv]
+      have hpl : (posCircle n p (d / iv)).1 < n := Nat.mod_lt _ hn
+      generalize (posCircle n p (d / iv)).1 = pos at *
+      generalize (posCircle n p (d / iv)).2 = c at *
+      rw [tie_getOffset n p old hp, tie_getOffset n p pos hp]
+      have hoo : off n p old < n := off_lt _ _ _ hn
+      generalize off n p old = oo at *
+      generalize off n p pos = no at *
+      by_cases h1 : no ≥ oo
+      · have h1' : (no : Int) ≥ (oo : Int) := by omega
+        simp only [h1, h1', decide_true, if_true]
+        congr 4
+        omega
+      · have h1' : ¬ ((no : Int) ≥ (oo : Int)) := by omega
+        by_cases h2 : c > 0
+        · have h2' : (c : Int) > 0 := by omega
+          simp only [h1, h1', h2, h2', decide_true, decide_false, if_true, if_false, Bool.false_eq_true]
+          congr 4 <;> omega
+        · have h2' : ¬ ((c : Int) > 0) := by omega
+          simp only [h1, h1', h2, h2', decide_false, if_false, Bool.false_eq_true]
+          simp
+
+/-- `setTask` first clamps a delay below one interval up to one interval — in steps: `0 ↦ 1`, the model's
+`if s = 0 then 1 else s`. -/
+theorem tie_setTaskClamp (d iv : Nat) (hiv : 0 < iv) :
+    setTaskClamp d iv = (if d / iv = 0 then [("task.delay", (iv : Int))] else [])
+    ∧ (if d / iv = 0 then iv else d) / iv = (if d / iv = 0 then 1 else d / iv) := by
+  constructor
+  · unfold setTaskClamp
+    by_cases hlt : d < iv
+    · have h0 : d / iv = 0 := Nat.div_eq_of_lt hlt
+      have hlt' : (d : Int) < (iv : Int) := by omega
+      simp [h0, hlt']
+    · have h0 : ¬ d / iv = 0 := fun h => hlt ((steps_zero_iff d iv hiv).mp h)
+      have hlt' : ¬ (d : Int) < (iv : Int) := by omega
+      simp [h0, hlt']
+  · split
+    · exact Nat.div_self hiv
+    · rfl
+
+/-- **`setTask` after the clamp**, as the model's `setWith`: a known key gets the new value and is then
+moved (`moveTask` with the same key and clamped delay); a new key gets a fresh entry with
+`circle = posCircle.2`, pushed to slot `posCircle.1` and registered there. -/
+theorem tie_setTask (n p d iv : Nat) (v : Int) (hs : iv ≤ d) (hiv : 0 < iv) (ok : Bool) :
+    setTaskEff ok v d iv p n =
+      ("call:timers.Get(task.key)", 0) ::
+        (if ok then [("entry.item.value", v), ("call:moveTask(task.baseEntry)", 0)]
+         else [("task.circle", ((posCircle n p (d / iv)).2 : Int)),
+               ("arg.pos", ((posCircle n p (d / iv)).1 : Int)), ("call:tw.slots[pos].PushBack(task)", 0),
+               ("arg.pos", ((posCircle n p (d / iv)).1 : Int)), ("call:setTimerPosition(pos,task)", 0)]) := by
+  unfold setTaskEff
+  cases ok <;> simp [tie_getPositionAndCircle n p d iv hs hiv]
+
+/-- `removeTask`: unknown key → nothing; else flag the entry removed and forget the key. -/
+theorem tie_removeTask (ok : Bool) :
+    removeTaskEff ok = ("call:timers.Get(key)", 0) ::
+      (if ok then [("timer.item.removed", 1), ("call:timers.Del(key)", 0)] else []) := by
+  cases ok <;> rfl
+
+/-- `setTimerPosition`: a known key is re-pointed to the given entry and slot, a new key is registered
+with both. -/
+theorem tie_setTimerPosition (pos task : Int) (ok : Bool) :
+    setTimerPositionEff pos ok task = ("call:timers.Get(task.key)", 0) ::
+      (if ok then [("timer.item", task), ("timer.pos", pos)]
+       else [("arg.pos", pos), ("call:timers.Set(task.key,&positionEntry{ pos: pos, item: task, })", 0)]) := by
+  cases ok <;> rfl
+
+/-- **one iteration of the scan loop is the model's `scanEntry`** (for an entry sitting in the scanned slot
+`p`): a removed entry is only unlinked; `circle > 0` → `circle - 1` and nothing else; else `diff > 0` → the
+entry is unlinked, pushed to slot `(p + diff) % n`, registered there, `diff = 0`; else it is handed to the
+callback (key, value), unlinked and its key forgotten. -/
+theorem tie_scanEntry (n p c d k v : Nat) (removed : Bool) :
+    scanEntryEff removed c d p n =
+      if removed then [("call:l.Remove(e)", 0)] else
+      match scanEntry n p { key := k, value := v, slot := p, circle := c, diff := d } with
+      | .stay e' =>
+        if c > 0 then [("task.circle", (e'.circle : Int))]
+        else [("call:l.Remove(e)", 0), ("arg.pos", (e'.slot : Int)), ("call:tw.slots[pos].PushBack(task)", 0),
+              ("arg.pos", (e'.slot : Int)), ("call:setTimerPosition(pos,task)", 0), ("task.diff", (e'.diff : Int))]
+      | .fire => [("call:append:tasks(timingTask{ key: task.key, value: task.value, })", 0),
+                  ("call:l.Remove(e)", 0), ("call:timers.Del(task.key)", 0)] := by
+  unfold scanEntryEff scanEntry
+  cases removed with
+  | true => simp
+  | false =>
+    simp only [Bool.false_eq_true, if_false, ne_eq, not_true_eq_false]
+    by_cases hc : c > 0
+    · have hc' : (c : Int) > 0 := by omega
+      simp only [hc, hc', decide_true, if_true]
+      congr 2
+      omega
+    · have hc' : ¬ (c : Int) > 0 := by omega
+      by_cases hd : d > 0
+      · have hd' : (d : Int) > 0 := by omega
+        have h : ((p : Int) + d) = ((p + d : Nat) : Int) := by omega
+        simp only [hc, hc', hd, hd', decide_true, decide_false, if_true, if_false, Bool.false_eq_true]
+        rw [h, Int.tmod_eq_emod_of_nonneg (by omega)]
+        norm_cast
+      · have hd' : ¬ (d : Int) > 0 := by omega
+        simp only [hc, hc', hd, hd', decide_false, if_false, Bool.false_eq_true]
+
+/-- one iteration of the drain loop: every entry is unlinked; an entry not flagged removed is forgotten
+(`timers.Del`) and handed to the drain callback with its key and value — the model's `drain`. -/
+theorem tie_drainEntry (removed : Bool) :
+    drainEntryEff removed = ("call:slot.Remove(e)", 0) ::
+      (if removed then [] else [("call:timers.Del(task.key)", 0), ("call:runner.Schedule{()", 0),
+                                ("call:fn(task.key,task.value)", 0), ("call:}()", 0)]) := by
+  cases removed <;> rfl
+
+theorem tie_loopHeaders :
+    scanLoopHeader = ["e := l.Front()", "e != nil", ""] ∧ drainLoopHeader = ["e := slot.Front()", "e != nil", ""]
+    ∧ drainWorkers = 8 := by decide
+
+/-- the callbacks of a tick run with `(key, value)` in this order, for every collected task, and only if
+there is one. -/
+theorem tie_runTasks (len : Int) :
+    runTasksGuard len = decide (len = 0)
+    ∧ runTasksStmts = ["if GUARD {", "return", "}",
+        "go func() { for i := range tasks { threading.RunSafe(func() { tw.execute(tasks[i].key, tasks[i].value) }) } }()"] := by
+  exact ⟨rfl, by decide⟩
+
+/-! ### the public API -/
+
+/-- the argument guards of SetTimer / MoveTimer / RemoveTimer / NewTimingWheel are the model's. -/
+theorem tie_guards (delay interval numSlots : Int) (keyNil execNil : Bool) :
+    setTimerGuard delay keyNil = badDelayKey delay keyNil
+    ∧ moveTimerGuard delay keyNil = badDelayKey delay keyNil
+    ∧ removeTimerGuard delay keyNil = keyNil
+    ∧ newTimingWheelGuard interval numSlots execNil = badCtor interval numSlots execNil := by
+  exact ⟨rfl, rfl, rfl, rfl⟩
+
+/-- SetTimer: guard → ErrArgument; then either the request (delay, key, value) is handed to the run loop on
+setChannel → nil, or stopChannel is closed → ErrClosed (the model's `ApiG.submit`). -/
+theorem tie_setTimer : setTimerStmts =
+    ["if GUARD {", "return ErrArgument", "}", "select {",
+     "case tw.setChannel <- timingEntry{ baseEntry: baseEntry{ delay: delay, key: key, }, value: value, }:",
+     "return nil", "case <-tw.stopChannel:", "return ErrClosed", "}"] := by decide
+
+theorem tie_moveTimer : moveTimerStmts =
+    ["if GUARD {", "return ErrArgument", "}", "select {",
+     "case tw.moveChannel <- baseEntry{ delay: delay, key: key, }:",
+     "return nil", "case <-tw.stopChannel:", "return ErrClosed", "}"] := by decide
+
+theorem tie_removeTimer : removeTimerStmts =
+    ["if GUARD {", "return ErrArgument", "}", "select {", "case tw.removeChannel <- key:",
+     "return nil", "case <-tw.stopChannel:", "return ErrClosed", "}"] := by decide
+
+theorem tie_drain : drainStmts =
+    ["select {", "case tw.drainChannel <- fn:", "return nil", "case <-tw.stopChannel:", "return ErrClosed", "}"] := by
+  decide
+
+theorem tie_stop : stopStmts = ["close(tw.stopChannel)"] := by decide
+
+/-- the run loop: forever, one request at a time; each channel is received from (never sent to) and
+dispatched to its handler; a closed stopChannel stops the ticker and ends the loop. -/
+theorem tie_runLoop : runLoopStmts =
+    ["for {", "select {",
+     "case <-tw.ticker.Chan():", "tw.onTick()",
+     "case task := <-tw.setChannel:", "tw.setTask(&task)",
+     "case key := <-tw.removeChannel:", "tw.removeTask(key)",
+     "case task := <-tw.moveChannel:", "tw.moveTask(task)",
+     "case fn := <-tw.drainChannel:", "tw.drainAll(fn)",
+     "case <-tw.stopChannel:", "tw.ticker.Stop()", "return",
+     "}", "}"] := by decide
+
+/-- the constructors: NewTimingWheel checks its arguments (guard above) and delegates with a real ticker;
+NewTimingWheelWithTicker copies every argument into its field, makes `numSlots` slots, unbuffered channels
+(a public method returns nil only once the loop has the request), initialises the slots and starts the loop. -/
+theorem tie_constructors :
+    newTimingWheelStmts =
+      ["if GUARD {", "return nil, fmt.Errorf(\"interval: %v, slots: %d, execute: %p\", interval, numSlots, execute)", "}",
+       "return NewTimingWheelWithTicker(interval, numSlots, execute, timex.NewTicker(interval))"]
+    ∧ ctorFields =
+      ["interval: interval", "ticker: ticker", "slots: make([]*list.List, numSlots)", "timers: NewSafeMap()",
+       "tickedPos: INIT", "execute: execute", "numSlots: numSlots",
+       "setChannel: make(chan timingEntry)", "moveChannel: make(chan baseEntry)", "removeChannel: make(chan any)",
+       "drainChannel: make(chan func(key, value any))", "stopChannel: make(chan lang.PlaceholderType)"]
+    ∧ ctorStmts = ["tw := &TimingWheel{…}", "tw.initSlots()", "go tw.run()", "return tw, nil"]
+    ∧ initSlotsStmts = ["for i := 0; i < tw.numSlots; i++ {", "tw.slots[i] = list.New()", "}"] := by
+  decide
+
+/-! ### statement skeletons (order of list / map operations) -/
 
 /-- the scan loop the model's `scanEntry` was written against: removed → drop; circle > 0 → circle--;
 diff > 0 → relocate and clear diff; else fire and forget the key. -/
